@@ -130,7 +130,6 @@ fn seq_case<C: Cm + MaskableMut + ComplementMut>(case: &Case, mask_ch: fn(u8) ->
 
     let tm = no_panic(&format!("to_mask_panic/{n}"), "Seq::to_mask", || owned.to_mask())?;
     check_content(&sy, &tm, &exp_mask, &format!("to_mask/{n}"))?;
-    check_image(&tm, &exp_mask, &format!("to_mask/{n}"))?;
     let tu = no_panic(&format!("to_unmask_panic/{n}"), "Seq::to_unmask", || owned.to_unmask())?;
     check_content(&sy, &tu, &exp_unmask, &format!("to_unmask/{n}"))?;
     check_symbols(&sy, &owned, codes, &format!("mask_receiver/{n}"))?;
